@@ -41,7 +41,7 @@ def gen_configs(rng, n_runs, phases, tier):
             "push_conc": push, "push_timeout_ns": timeout_ph * STEP,
             "push_slack_ns": rng.choice([STEP // 10, STEP // 2, 3 * STEP]),
             "slow_pct": rng.choice([20, 35, 50]), "fail_pct": rng.choice([15, 25, 40]), "dead_pct": 5,
-            "hold_pct": rng.choice([25, 35, 50]), "deliv_age": rng.choice([0, 0, 100 * STEP]),
+            "hold_pct": rng.choice([25, 35, 50]), "hot_pct": rng.choice([0, 15, 30, 30]), "deliv_age": rng.choice([0, 0, 100 * STEP]),
         })
     return runs
 
@@ -80,7 +80,7 @@ def run_harness(ctx, hbin, runs, par):
     crashes = []
     for backend, (idxs, rc, out, err) in results.items():
         if rc != 0:
-            crashes.append((backend, rc, err[-3000:]))
+            crashes.append((backend, rc, err[:6000]))
             continue
         try:
             o = json.loads(out)
@@ -214,33 +214,35 @@ def describe(code, nm, calls):
 
 
 def push_checks(run_out):
-    """dispatcher: (1) two Deliver invocations for one message overlapping in stamps, unless an operator cancel named
-    the message in between; (2) a Deliver invocation (the stub takes at most the target timeout, in injected time)
-    that returned when its lease had already expired"""
+    """dispatcher: (1) two Deliver invocations for one message, made under two different leases, overlapping in
+    stamps - unless an operator cancel that named the message ended the earlier lease before the later one was handed
+    out (the dispatcher then goes on delivering a message it no longer holds; expiry is no excuse: the route lease TTL
+    is meant to cover a micro-batch of deliveries each bounded by the target timeout, and the stub honours that bound
+    in injected time); (2) a Deliver invocation that returned when its lease had already expired"""
     probs = []
     calls = run_out["calls"]
     cancels = [c for c in calls if c["k"] == "cancel" and c.get("ok")]
-    issued_at = {}                      # lease -> call stamp of the dispatcher dequeue that handed it out
+    issued = {}                         # lease -> (call stamp, return stamp) of the dispatcher dequeue that handed it out
     for c in calls:
         if c["k"] == "deq" and c["src"] == "push":
             for it in c.get("items") or []:
-                issued_at.setdefault(it["lease"], c["c"])
+                issued.setdefault(it["lease"], (c["c"], c["r"]))
     by_id = collections.defaultdict(list)
     for d in run_out.get("delivers") or []:
-        by_id[d["id"]].append(d)
+        if d.get("lease") in issued:
+            by_id[d["id"]].append(d)
     for mid, ds in by_id.items():
-        ds.sort(key=lambda d: d["c"])
+        ds.sort(key=lambda d: issued[d["lease"]][0])
         for i, d1 in enumerate(ds):
             for d2 in ds[i + 1:]:
-                if d2["c"] < d1["r"]:
-                    # an operator cancel of the message, issued after the first delivery's lease was handed out, ends that
-                    # lease legitimately: the dispatcher goes on delivering a message it no longer holds
-                    since = issued_at.get(d1["lease"], d1["c"])
-                    if any(mid in [x.strip() for x in c.get("ids") or []] and c["c"] < d2["c"] and c["r"] > since for c in cancels):
-                        continue
-                    probs.append(("push:concurrent-delivery", "message %s was being delivered by two dispatcher workers at once "
-                                  "(Deliver stamps %d..%d and %d..%d) and no operator cancel ended the first lease" % (mid, d1["c"], d1["r"], d2["c"], d2["r"]),
-                                  mid, [d1, d2]))
+                if d1["lease"] == d2["lease"] or not (d1["c"] < d2["r"] and d2["c"] < d1["r"]):
+                    continue
+                a, b = issued[d1["lease"]], issued[d2["lease"]]
+                if any(mid in [x.strip() for x in c.get("ids") or []] and c["r"] > a[0] and c["c"] < b[1] for c in cancels):
+                    continue
+                probs.append(("push:concurrent-delivery", "message %s was being delivered by two dispatcher workers at once "
+                              "(Deliver stamps %d..%d under lease %s and %d..%d under lease %s) and no operator cancel ended the first lease"
+                              % (mid, d1["c"], d1["r"], d1["lease"], d2["c"], d2["r"], d2["lease"]), mid, [d1, d2]))
     for d in run_out.get("delivers") or []:
         if d.get("until") and d["now_r"] >= d["until"] and d["lease"]:
             probs.append(("push:delivery-outlived-lease", "a delivery bounded by the target timeout (injected clock) returned at %d, "
@@ -287,10 +289,23 @@ def measure(run_out, acc):
         active.append(c["r"])
 
 
-def run(ctx, info, rng):
+def run(ctx, info, rng, *_unused):
+    """coverage fragment of the concurrent stress; in replay mode of one of its own keys up to three rounds are run"""
+    rk = ctx.replay_key or ""
+    rounds = 3 if rk.startswith(("overlap", "push:")) else 1
+    cov = {}
+    for k in range(rounds):
+        cov = run_round(ctx, info, rng)
+        if rounds > 1 and any(v["key"] == rk for v in ctx.violations):
+            break
+    return cov
+
+
+def run_round(ctx, info, rng):
     quick = ctx.tier == "quick"
-    n_runs = 20 if quick else 120
-    phases = 30 if quick else 40
+    # 16 histories = one round of 16 parallel coqc evaluations on the 16 cores
+    n_runs = 16 if quick else 128
+    phases = 32 if quick else 40
     runs = gen_configs(rng, n_runs, phases, ctx.tier)
     t_start = time.time()
     outs, crashes = run_harness(ctx, info["hbin"], runs, par=4)
@@ -300,10 +315,13 @@ def run(ctx, info, rng):
     acc["by_entry"] = collections.Counter()
     acc["redelivery_pairs_by_entry"] = collections.Counter()
     for backend, rc, err in crashes:
+        head = re.search(r"^(fatal error:.*|panic:.*)$", err, flags=re.M)
+        if not (head and ("concurrent map" in head.group(1) or "hookaido/internal/" in err)):
+            raise RuntimeError("conc harness failed (exit %s): %s" % (rc, err[-1500:]))
         # a Go runtime fatal error in the store under concurrent use (e.g. concurrent map writes) is a failure of
         # the atomicity the property rests on; anything else the caller sees as a machinery failure below
         C.report(ctx, "overlap:store-crashed:%s" % backend,
-                 "the %s store crashed the process under concurrent calls (exit %s): %s" % (backend, rc, err[-400:]),
+                 "the %s store crashed the process under concurrent calls (exit %s): %s" % (backend, rc, head.group(1)),
                  {"kind": "schedule", "backend": backend, "configs": [r for r in runs if r["backend"] == backend], "stderr": err,
                   "how_to_replay": "./check C03 --replay <this file> (re-runs the same configurations; thread schedules are chosen by the Go runtime)"})
     bodies, owners = [], []
@@ -319,6 +337,10 @@ def run(ctx, info, rng):
             continue
         calls = sorted(ro["calls"], key=lambda c: c["c"])
         ro["calls"] = calls
+        # side conditions of the soundness theorem that are facts about the recording: stamps come from one counter
+        stamps = [c["c"] for c in calls] + [c["r"] for c in calls]
+        if len(set(stamps)) != len(stamps) or any(c["c"] >= c["r"] for c in calls):
+            raise RuntimeError("conc harness recorded inconsistent stamps")
         measure(ro, acc)
         acc["unquiet"] += ro.get("unquiet", 0)
         # transport-level sanity outside the monitor: dequeue errors, lease_until = phase time + requested ttl
@@ -371,9 +393,9 @@ def run(ctx, info, rng):
                  {"kind": "schedule", "backend": cfg["backend"], "config": cfg, "witness": code, "message": mid,
                   "the_two_dequeues": pair, "sub_history_all_calls_on_the_message": sub,
                   "expected": "Model/Overlap.overlap_violation = None (proved for every linearizable history: Properties/C03conc.v)",
-                  "how_to_replay": "./check C03 --replay <this file>: re-runs the stress with the same seed (the Go scheduler picks the interleaving, "
-                                   "so a race may need several runs); the recorded sub-history itself is re-judged by "
-                                   "Eval vm_compute in overlap_violation"})
+                  "how_to_replay": "./check C03 --replay <this file>: re-runs the stress with the same seed, up to three rounds (the Go scheduler "
+                                   "picks the interleaving, so a race may not show in every round); the sub-history above, fed to "
+                                   "Model/Overlap.overlap_violation, is the failing input of the monitor"})
     cov = {
         "concurrent_stress": {
             "runs": len(runs), "histories_judged": acc["histories"], "monitor_evaluations_coq": acc["monitor_evaluations"],
